@@ -317,8 +317,8 @@ def call_contract(ex, state, node, name, args, rt):
                 ex.oblige(state, "use-after-free", node, im.alive, label="%s:%s" % (name, inner)) if not z3.is_true(im.alive) else None
     for k, e in c.locals_.items():
         ns_pre[k] = K.evaluate(e, ns_pre)
-    for i, r in enumerate(c.requires):
-        ex.oblige(state, "call.requires", node, K.evaluate(r, ns_pre), label="%s#%d:%s" % (name, i, norm_text(r, 50)))
+    for tag, r in ex.clauses(c.requires):
+        ex.oblige(state, "call.requires", node, K.evaluate(r, ns_pre), label="%s:%s" % (name, norm_text(r, 50)), prop=tag)
     # distinct buffers: two pointer arguments the callee treats as separate must not overlap when one is assigned
     for f1 in c.assigns:
         base1 = f1.split("[")[0]
@@ -409,8 +409,7 @@ def call_contract(ex, state, node, name, args, rt):
         ns_post["result"] = result
     for k, e in c.locals_.items():
         ns_post[k] = K.evaluate(e, ns_post)
-    for s in c.ensures:
-        txt = s[1] if isinstance(s, tuple) else s
+    for tag, txt in ex.clauses(c.ensures):
         ex.fact(state, K.evaluate(txt, ns_post))
     for fname, rng in c.outputs.items():
         if fname in ns_post and isinstance(ns_post[fname], ArrView):
